@@ -89,4 +89,12 @@ def TUnit.tys (u : TUnit) : List Ty :=
 
 def TUnit.all (g : Ty → Bool) (u : TUnit) : Bool := u.tys.all g
 
+/-- more fuel does not change what CombineContainers returns (evaluated by the driver on every
+correspondence case: the fuel of `combineContainers` was enough) -/
+def ccStable (t : Ty) : Bool := decide (cc (ccFuel t) t = cc (2 * ccFuel t + 7) t)
+
+/-- the unit as CombineContainers receives it -/
+def beforeCC (u : TUnit) : TUnit :=
+  passCombineReturns.runUnit (passSimplifyUnions.runUnit (passRemoveDuplicates.runUnit (passNormalizeSelf.runUnit u)))
+
 end PytypeModel.Pytd
